@@ -62,6 +62,40 @@ IdExitOrder()
   return failures ? 1 : 0;
 }
 
+// C17: a worker is stalled between the load and the store of Epoch::EnterEpoch while the coordinator advances the
+// epoch across list-node boundaries; the list handed to the guard holder is then not the list of its own epoch.
+static int
+EnterEpochStall()
+{
+  EpochManager mgr{};
+  size_t guard_epoch = 0, list_front = 0, list_size = 0;
+  bool descending = true, has_prev = true;
+  // start in the middle of a node that is neither the first nor the last of the chain (epoch 700 lies in [512, 768))
+  for (int i = 0; i < 444; ++i) mgr.ForwardGlobalEpoch();
+  // W: GetThreadID = load + exchange on the id flags (2 ops), GetCurrentEpoch load (1 op); HOLD before the store
+  vsched::Start({{0, 3, true}, {7, 1, false}});
+  std::thread w([&] {
+    vsched::Register(0);
+    auto &&[guard, list] = mgr.GetProtectedEpochs();
+    guard_epoch = guard.GetProtectedEpoch();
+    list_size = list.size();
+    list_front = list.empty() ? 0 : list.front();
+    for (size_t i = 1; i < list.size(); ++i) descending = descending && list[i - 1] > list[i];
+    has_prev = guard_epoch <= EpochManager::kInitialEpoch || (list.size() > 1 && list[1] == guard_epoch - 1);
+    stage.store(1);
+  });
+  while (vsched::Pos() < 1) std::this_thread::yield();
+  for (int i = 0; i < 600; ++i) mgr.ForwardGlobalEpoch();
+  vsched::Finish();
+  WaitStage(1);
+  w.join();
+  std::printf("guard reports epoch %zu; returned list: size %zu, first element %zu\n", guard_epoch, list_size, list_front);
+  if (list_front != guard_epoch) FAIL("GetProtectedEpochs returned a list whose first element (%zu) is not the epoch the guard reports (%zu)", list_front, guard_epoch);
+  if (!descending) FAIL("returned list is not strictly descending");
+  if (!has_prev) FAIL("returned list does not contain the preceding epoch");
+  return failures ? 1 : 0;
+}
+
 int
 main(int argc, char **argv)
 {
@@ -69,6 +103,7 @@ main(int argc, char **argv)
   const std::string sc = argv[1];
   int rc = 3;
   if (sc == "id-exit-order") rc = IdExitOrder();
+  if (sc == "enter-epoch-stall") rc = EnterEpochStall();
   std::fflush(stdout);
   std::_Exit(rc);
 }
